@@ -358,6 +358,42 @@ def views_agree(mask, pixel_scales, origin):
     bound: 15 topologies, all masks <= 9 (12) cells, 150 (3000) random <= 7x7."""
     import autoarray as aa
     mk = aa.Mask2D(mask=mask.copy(), pixel_scales=pixel_scales, origin=origin)
+    return _edited_in_place(lambda mk_, mask_: _views_of(mk_, mask_, pixel_scales, origin), mk, mask)
+
+
+def _edited_in_place(body, mk, mask):
+    """'for every mask': also for a Mask2D object whose entries were changed in place after its sets had been asked for, and
+    for a copy of it that was edited -- the views describe the mask AS IT IS (a view remembered from before the edit shows)"""
+    msg = body(mk, mask)
+    if msg:
+        return msg
+    cand = [(y, x) for y in range(mask.shape[0]) for x in range(mask.shape[1]) if mask[y, x] or (~mask).sum() > 1]
+    if not cand:
+        return None
+    y, x = cand[(int(mask.sum()) * 7 + mask.shape[1]) % len(cand)]
+    m2 = mask.copy()
+    m2[y, x] = not mask[y, x]
+    mk[y, x] = bool(m2[y, x])
+    msg = body(mk, m2)
+    if msg:
+        return "after `mask[%d, %d] = %s` in place on a Mask2D whose views had been read: %s" % (y, x, bool(m2[y, x]), msg)
+    cp = mk.copy()
+    cand3 = [(a, b) for (a, b) in cand if (a, b) != (y, x) and (m2[a, b] or (~m2).sum() > 1)]
+    if cand3:
+        a, b = cand3[(int(m2.sum()) * 5 + 1) % len(cand3)]
+        m3 = m2.copy()
+        m3[a, b] = not m2[a, b]
+        cp[a, b] = bool(m3[a, b])
+        msg = body(cp, m3)
+        if msg:
+            return "on an edited copy (`c = mask.copy(); c[%d, %d] = %s`): %s" % (a, b, bool(m3[a, b]), msg)
+        msg = body(mk, m2)
+        if msg:
+            return "on the original after its copy was edited: %s" % msg
+    return None
+
+
+def _views_of(mk, mask, pixel_scales, origin):
     di, dm, dg = mk.derive_indexes, mk.derive_mask, mk.derive_grid
     for name in ("edge", "border"):
         slim = getattr(di, name + "_slim")
